@@ -17,7 +17,11 @@ def simple(run, shards_thorough=16, variant="default", shards_quick=1, fuzz=None
             out.append(dict(run="^$", variant=variant, fuzz=fuzz, fuzztime=240, journal=kw.get("journal", False)))
         if tier == "thorough" and kw.get("also386"):
             # the same tests built for GOARCH=386 (32-bit int and uint, portable code paths), at the quick tier's case counts
-            out.insert(1, dict(run=run, variant="386", shards=4, env={"VERIF_TIER": "quick"}))
+            v386 = "bubble386" if variant == "bubble" else "386"
+            st386 = dict(run=run, variant=v386, shards=4, env={"VERIF_TIER": "quick"})
+            if kw.get("journal"):
+                st386["journal"] = True
+            out.insert(1, st386)
         return out
     return steps
 
@@ -26,10 +30,10 @@ PROPS = {
     "C01": dict(level="exploration", steps=simple("^TestC01", shards_quick=2, fuzz="FuzzC10", also386=True), assumptions=TRUST),
     "C13": dict(level="exploration", steps=simple("^TestC13", shards_thorough=4, also386=True), assumptions=TRUST),
 }
-PROPS["C02"] = dict(level="exploration", steps=simple("^TestC02"), assumptions=TRUST)
-PROPS["C09"] = dict(level="exploration", steps=simple("^(TestC09|TestRefGolden)", shards_quick=2), assumptions=TRUST)
+PROPS["C02"] = dict(level="exploration", steps=simple("^TestC02", also386=True), assumptions=TRUST)
+PROPS["C09"] = dict(level="exploration", steps=simple("^(TestC09|TestRefGolden)", shards_quick=2, also386=True), assumptions=TRUST)
 PROPS["C19"] = dict(level="exploration", steps=simple("^TestC19", shards_thorough=1), assumptions=TRUST)
-PROPS["C06"] = dict(level="fault_enumeration", steps=simple("^TestC06", shards_quick=3), assumptions=TRUST)
+PROPS["C06"] = dict(level="fault_enumeration", steps=simple("^TestC06", shards_quick=3, also386=True), assumptions=TRUST)
 PROPS["C05"] = dict(level="exploration", steps=simple("^TestC05", shards_quick=2, fuzz="FuzzC05", also386=True), assumptions=TRUST)
 
 
@@ -53,7 +57,7 @@ PROPS["C04"] = dict(level="exploration", steps=twin("^TestC04", fuzz="FuzzC03"),
 PROPS["C12"] = dict(level="exploration", steps=twin("^TestC12", fuzz="FuzzC03"), needs_twin=True, assumptions=TRUST)
 PROPS["C10"] = dict(level="exploration", steps=simple("^TestC10", shards_quick=2, fuzz="FuzzC10", also386=True), uses_lz4ref=True, assumptions=TRUST)
 PROPS["C11"] = dict(level="exploration", steps=simple("^TestC11", shards_quick=2, fuzz="FuzzC10", also386=True), assumptions=TRUST)
-PROPS["C17"] = dict(level="exploration", steps=simple("^TestC17", variant="bubble", shards_quick=4), default_variant="bubble", assumptions=TRUST + ["testing/synctest (Go 1.26.8): 'all goroutines durably blocked' detection is sound for channel operations; goroutines blocked on a mutex or in a syscall are not covered"])
+PROPS["C17"] = dict(level="exploration", steps=simple("^TestC17", variant="bubble", shards_quick=4, also386=True), default_variant="bubble", assumptions=TRUST + ["testing/synctest (Go 1.26.8): 'all goroutines durably blocked' detection is sound for channel operations; goroutines blocked on a mutex or in a syscall are not covered"])
 
 
 def c08_steps(tier):
@@ -84,8 +88,8 @@ def c14_steps(tier):
 
 PROPS["C14"] = dict(level="exploration", steps=c14_steps, replay_variant={"C14/frame": "bubble", "C14/block": "default"}, assumptions=TRUST)
 PROPS["C15"] = dict(level="fault_enumeration", steps=simple("^TestC15", shards_quick=3), assumptions=TRUST)
-PROPS["C18"] = dict(level="exploration", steps=simple("^TestC18"), assumptions=TRUST)
-PROPS["C07"] = dict(level="exploration", steps=simple("^TestC07", variant="bubble", shards_quick=2, journal=True, fuzz="FuzzC07"), default_variant="bubble", assumptions=TRUST + [
+PROPS["C18"] = dict(level="exploration", steps=simple("^TestC18", also386=True), assumptions=TRUST)
+PROPS["C07"] = dict(level="exploration", steps=simple("^TestC07", variant="bubble", shards_quick=2, journal=True, fuzz="FuzzC07", also386=True), default_variant="bubble", assumptions=TRUST + [
     "testing/synctest (Go 1.26.8) for 'never blocks forever' and leaked goroutines; runtime.MemStats.TotalAlloc as the allocation meter"])
 PROPS["C20"] = dict(level="exploration", steps=simple("^TestC20", shards_quick=4), needs_lz4c=True, assumptions=TRUST + ["/bin/sh and the filesystem of the sandbox (permission bits are compared under umask 0)"])
 
